@@ -1,6 +1,6 @@
 From Coq Require Import ZArith List Bool Lia.
 From Arsenal Require Import Util.
-From Arsenal Require VamDev VamBlockList Vam VamInv VamInvThm VamAcctThm VamMap VamMapThm VamDefrag VamDefragThm VamDefragAcct VamDefragMap VamHvThm VamDefragHv.
+From Arsenal Require VamDev VamBlockList Vam VamInv VamInvThm VamAcctThm VamMap VamMapThm VamDefrag VamDefragThm VamDefragAcct VamDefragMap VamHvThm VamDefragHv VamFlush VamFlushThm.
 From Arsenal Require Import SyncMem SyncMemProofs.
 Import ListNotations.
 Open Scope Z_scope.
@@ -96,4 +96,55 @@ Theorem C08_allocator_defrag_maps_host_visible : forall c v run o f v' run' r ca
   VamHvThm.maps_hv c (m_mems (v_m v)) calls.
 Proof. intros c v run o f v' run' r calls dr Ha. exact (VamDefragHv.dstep_maps_host_visible c Ha v run o f v' run' r calls dr). Qed.
 Print Assumptions C08_allocator_defrag_maps_host_visible.
+(* Flush / Invalidate of any allocation in any reachable state never panics and issues at most one call, whose
+   range lies inside the live memory object, starts at a multiple of nonCoherentAtomSize and has a size that is
+   a multiple of it or ends at the end of the object.  BindBufferMemory / BindImageMemory: the call names the
+   allocation's own live memory object at offset = caller's offset + the allocation's offset inside it, the
+   allocation's range lies inside the object and is aligned as placed.  (For the bind inside
+   CreateBuffer/CreateImage and for calls inside other operations, C08_allocator_driver_calls_valid gives
+   "live object" and "range inside the object".) *)
+Theorem C08_allocator_flush_valid : forall c v inval s off size f v' r calls,
+  cfg_acct c -> reachA c v -> step c v (OFlush inval s off size) f = (v', r, calls) ->
+  r <> RPanic /\ r <> RStuck /\ VamFlush.flushes_ok c (m_mems (v_m v)) calls.
+Proof. intros c v inval s off size f v' r calls Ha. exact (VamFlushThm.flush_never_panics c Ha v inval s off size f v' r calls). Qed.
+Print Assumptions C08_allocator_flush_valid.
+
+Theorem C08_allocator_bind_valid : forall c v s image res off f v' r calls,
+  cfg_acct c -> reachA c v -> step c v (OBind s image res off) f = (v', r, calls) ->
+  r <> RPanic /\ r <> RStuck /\
+  (calls = nil \/
+   exists o code d,
+     calls = (CBind image res (a_mem (get_alloc v s)) (off + o) code :: nil)%list /\
+     a_allocated (get_alloc v s) = true /\ find_offset v (get_alloc v s) = Some o /\
+     find_mem (m_mems (v_m v)) (a_mem (get_alloc v s)) = Some d /\
+     0 <= o /\ o + a_size (get_alloc v s) <= dm_size d /\
+     (a_kind (get_alloc v s) = 1 -> o mod a_align (get_alloc v s) = 0)).
+Proof. intros c v s image res off f v' r calls Ha. exact (VamFlushThm.bind_never_panics c Ha v s image res off f v' r calls). Qed.
+Print Assumptions C08_allocator_bind_valid.
 End Allocator.
+
+(* second tie, allocator level: the flush / invalidate range computation of vam/allocation.go and the minimum
+   alignment of non-coherent memory types (device_memory.go), regenerated from the Go source on every run,
+   equal the whole-allocator model's functions (nonCoherentAtomSize a power of two, magnitudes below 2^60;
+   for atom size 0, which Vulkan excludes, Go divides by zero: GenLeafProofsVam.gen_flush_atom0_discrepancy). *)
+From Arsenal Require GenLeafProofsVam.
+
+Theorem C08_code_flushOrInvalidateRange : forall c v a offset size aoff bsize off0 sz0,
+  Bits.pow2 (VamDev.c_atom c) -> VamDev.c_atom c <= 2 ^ 60 ->
+  0 <= VamBlockList.a_size a <= 2 ^ 60 -> -2 ^ 60 <= offset <= 2 ^ 60 -> -2 ^ 60 <= size <= 2 ^ 60 ->
+  0 <= aoff <= 2 ^ 60 -> -2 ^ 60 <= bsize <= 2 ^ 60 ->
+  (VamBlockList.a_kind a = 1 -> Vam.find_offset v a = Some aoff /\
+     exists b, VamBlockList.get_block v (VamBlockList.a_lref a) (VamBlockList.a_blk a) = Some b /\
+               VamBlockList.meta_size (VamBlockList.bk_meta b) = bsize) ->
+  GenLeafProofsVam.flush_view
+    (GenLeaf.flushOrInvalidateRange (VamBlockList.a_kind a) (VamDev.non_coherent c (VamBlockList.a_type a)) (VamDev.c_atom c)
+       (VamBlockList.a_size a) aoff bsize off0 sz0 offset size)
+  = Vam.flush_range c v a offset size.
+Proof. exact GenLeafProofsVam.gen_flushOrInvalidateRange_eq. Qed.
+Print Assumptions C08_code_flushOrInvalidateRange.
+
+Theorem C08_code_MemoryTypeMinimumAlignment : forall c t,
+  0 <= VamDev.c_atom c < 2 ^ 63 ->
+  GenLeaf.MemoryTypeMinimumAlignment (VamDev.c_atom c) (VamDev.type_flags c t) t = Vam.type_min_alignment c t.
+Proof. exact GenLeafProofsVam.gen_MemoryTypeMinimumAlignment_eq. Qed.
+Print Assumptions C08_code_MemoryTypeMinimumAlignment.
